@@ -45,8 +45,8 @@ def regenerate(res):
 
 MANIFEST = dict(
    technique="Lean 4 proof by induction over modifier histories (internals = abstraction of the history; processModifiersCore transcribed), over chains of Transform/Pipe wrappers (ZodTransform.Parse / ZodPipe.Parse transcribed, callback log included), over sequences of parses through one explicit ParseContext (context threaded as state; outcome independent of the context's history) and, for the last clause, over histories applied to a schema with an arbitrary type-local configuration and an arbitrary value parser (frame theorem) + translators regenerating Gen/C03Tables.lean on every run (go/ast: ParseContext fields and every read/write site of its state, processModifiersCore's branch skeleton, the schema types declaring modifier methods vs the harness table; behavioural, by reflection on real schemas: which configuration fields each of the twelve modifier methods of each of the 70 table rows carries), decided over the whole table + exhaustive short / random longer histories applied by reflection to real schemas of all 54 schema types and 12 constructor variants, bare, under every wrapper chain up to length 3 with logging sentinel callbacks, in sequences through one caller-supplied context (Parse/ParseAny/MustParse/StrictParse) and as (possibly wrapped) children of one tuple/object/array parse, judged by the history-only specification",
-   text="c03_history proves at full strength, for every history (any length, any order) of Optional/Nilable/Nullish/NonOptional/Default/DefaultFunc/Prefault/PrefaultFunc with Overwrite and Refine calls in between, that the engine's nil outcome is the documented one (default unchecked > prefault validated > nonoptional error > nil > type error); c03_legacy_witness_* prove that the nil pass as it was before fixes 4f7c1d7 / 7db47f1 (default checked when an overwrite is attached, refinements run on an accepted nil) falsifies the statement. c03_nonnil_frame proves the last clause at full strength: for every type, every value parser and type-local configuration, every start state and context and EVERY history, a non-nil input is validated exactly as by the schema without the modifiers (verdict and value; the context is left as it was); its premise — no modifier method rebuilds a schema without part of its type's configuration — is c03_cfg_drops_as_modelled, decided over the table regenerated by reflection on the real schemas of every row (c03_legacy_frame_witness_record/_struct: the table before fixes 66ed2d6 / ef151cb falsifies the statement). For the schema wrapped in any chain of .Transform(f_i) / .Pipe(target_i) calls, c03_wrapped_default proves that with a default set a nil input returns what the bare schema returned and calls no transform function however many are chained (pipe targets, being second schemas, receive the default: C10's reading of Pipe), c03_wrapped_plain that without a default and for every non-nil input each wrapper runs exactly once, in order, and c03_wrapped combines them with the history theorem into the full statement over result and callback log for every history and every chain. c03_ctx_history proves, with the ParseContext threaded as explicit state, that after any sequence of earlier parses through a context in any initial state the next parse yields what it yields through a fresh context, and c03_ctx_seq that every parse of every such sequence meets the statement for its own history and input. The models are tied to /repo by applying every history up to length 2 (thorough: 3) plus random longer ones to real schemas of 70 table rows through reflection: nil / typed-nil inputs classified by sentinel default/prefault values, every non-nil input of the row (including inputs whose verdict depends on the key schema, Partial, Strict, catch-all, rest, word lists, coercion) compared with the unmodified schema, the type's own internals compared field by field after every history; wrapped cases observed as result term plus callback log; sequences of 1-5 parses (StrictParse steps judged by the same specification) through one context, each step also through a fresh context and the context's fields compared after every step; the same steps as children (bare or under a wrapper chain) of one tuple / object / array.",
-   note="Trusted: Lean kernel; axioms propext/Classical.choice/Quot.sound at most; harness + comparer + the translators (context write detection is syntactic, cross-checked by per-step context snapshots; configuration comparison covers exported fields of the type's own internals, member schemas by identity). Values are abstracted to valid/invalid w.r.t. the schema's own check; which non-nil inputs depend on the configuration is declared per row (a wrong declaration shows as model drift). When both a value default and a function default are set the spec accepts either (lenient reading). Overwrite callbacks still run on a default and on an accepted nil (pinned by the library's tests; modelled: overwriteRunsOnDefault, c03_witness_overwrite_on_default; not observable with the identity overwrite the harness attaches). Pipe targets and transform callbacks always succeed; array children show verdicts only (an array returns its input slice). Callback arguments are compared up to numeric representation and nil-pointer vs zero value (a type's Transform wrapper dereferences).",
+   text="c03_history proves at full strength, for every history (any length, any order) of Optional/Nilable/Nullish/NonOptional/Default/DefaultFunc/Prefault/PrefaultFunc with Overwrite and Refine calls in between, that the engine's nil outcome is the documented one (default unchecked > prefault validated > nonoptional error > nil > type error); c03_legacy_witness_* prove that the nil pass as it was before fixes 4f7c1d7 / 7db47f1 (default checked when an overwrite is attached, refinements run on an accepted nil) falsifies the statement. c03_nonnil_frame proves the last clause: for every type, every value parser and type-local configuration, every start state and context and EVERY history, a non-nil input is validated exactly as by the schema without the modifiers (verdict and value; the context is left as it was). In the MODEL the non-nil path does not read the modifier state by construction (processModifiers_nonNil and ctxStepX_nonNil are rfl), so the theorem reduces to 'the configuration is not dropped'; that the REAL non-nil path does not read it either is a table fact, decided on every run over the go/ast extraction of internal/engine: c03_pmc_nonnil_returns_first (processModifiersCore's first statement is `if !isNilInput(input) { return nil, false, nil }`, no initialiser, no else, and neither it nor isNilInput mentions internals, ctx or expectedType) and c03_modifier_reads_off_nonnil_path (every read of a modifier field in internal/engine lies after that return, under an isNilInput(input) conjunct, in resolveDefault — called by processModifiersCore only — or in the schema-building MergeInternalsState; the ONE read on a non-nil path is listed: ParsePrimitiveStrict's fast-path test, which only chooses between returning the input at once and the general path — their agreement is decided by the run's StrictParse steps). The type-local non-nil paths of package types are tied by the run (val lines: every row's non-nil inputs against the unmodified schema). The frame theorem's other premise — no modifier method rebuilds a schema without part of its type's configuration — is c03_cfg_drops_as_modelled, decided over the table regenerated by reflection on the real schemas of every row (c03_legacy_frame_witness_record/_struct: the table before fixes 66ed2d6 / ef151cb falsifies the statement). For the schema wrapped in any chain of .Transform(f_i) / .Pipe(target_i) calls, c03_wrapped_default proves that with a default set a nil input returns what the bare schema returned and calls no transform function however many are chained (pipe targets, being second schemas, receive the default: C10's reading of Pipe), c03_wrapped_plain that without a default and for every non-nil input each wrapper runs exactly once, in order, and c03_wrapped combines them with the history theorem into the full statement over result and callback log for every history and every chain. c03_ctx_history proves, with the ParseContext threaded as explicit state, that after any sequence of earlier parses through a context in any initial state the next parse yields what it yields through a fresh context, and c03_ctx_seq that every parse of every such sequence meets the statement for its own history and input. The models are tied to /repo by applying every history up to length 2 (thorough: 3) plus random longer ones to real schemas of 70 table rows through reflection: nil / typed-nil inputs classified by sentinel default/prefault values, every non-nil input of the row (including inputs whose verdict depends on the key schema, Partial, Strict, catch-all, rest, word lists, coercion) compared with the unmodified schema, the type's own internals compared field by field after every history; wrapped cases observed as result term plus callback log; sequences of 1-5 parses (StrictParse steps judged by the same specification) through one context, each step also through a fresh context and the context's fields compared after every step; the same steps as children (bare or under a wrapper chain) of one tuple / object / array.",
+   note="Round 4c (audit A M10/LOW): the last clause's rfl lemmas are now backed by the two table theorems above (translator: pmcFirst*, isNilInputIdents, modifierReads, resolveDefaultCallers in Gen/C03Tables.lean); pmcBranchesExpected follows /repo 6d3c407 (the final statement hands the schema on for its own message; error class unchanged); the driver's 'echo the implementation' branches for ownNilPath = 1 are deleted — such a line is refused (bad-op), so one harness line can no longer turn model = impl. Trusted: Lean kernel; axioms propext/Classical.choice/Quot.sound at most; harness + comparer + the translators (context write detection is syntactic, cross-checked by per-step context snapshots; configuration comparison covers exported fields of the type's own internals, member schemas by identity). Values are abstracted to valid/invalid w.r.t. the schema's own check; which non-nil inputs depend on the configuration is declared per row (a wrong declaration shows as model drift). When both a value default and a function default are set the spec accepts either (lenient reading). Overwrite callbacks still run on a default and on an accepted nil (pinned by the library's tests; modelled: overwriteRunsOnDefault, c03_witness_overwrite_on_default; not observable with the identity overwrite the harness attaches). Pipe targets and transform callbacks always succeed; array children show verdicts only (an array returns its input slice). Callback arguments are compared up to numeric representation and nil-pointer vs zero value (a type's Transform wrapper dereferences).",
    design="DESIGN.md §5 C03")
 
 MODULES = ["Gozod.Proofs.C03"]
@@ -61,6 +61,7 @@ THEOREMS = ["Gozod.C03." + t for t in [
     "step_ctx", "step_eq_parseBase", "runSeq_ctx", "runSeq_results", "c03_ctx_history", "c03_ctx_history_discriminates",
     "specStep_parseBase", "c03_ctx_seq",
     "c03_ctx_fields_as_modelled", "c03_ctx_never_written", "c03_ctx_state_read_only_for_messages", "c03_pmc_structure_as_transcribed",
+    "c03_pmc_nonnil_returns_first", "c03_modifier_reads_off_nonnil_path",
     "c03_harness_covers_every_schema_type",
     "applyAllC_i", "applyAllC_cfg", "processModifiers_nonNil", "ctxStepX_nonNil", "c03_nonnil_frame_of", "c03_nonnil_frame",
     "c03_frame_nil_side", "c03_legacy_frame_witness_record", "c03_legacy_frame_witness_struct",
